@@ -374,7 +374,10 @@ def run_segment(case, seg_steps, model, root, magick):
                     if ok:
                         if model.get(key, {}).get("state") == "ack":
                             cnt("probe:overwrite-of-acknowledged-path")
-                        model[key] = {"state": "ack", "tok": tok, "img": op["img"]}
+                        retry = model.get(key, {}).get("state") == "indet"
+                        model[key] = {"state": "ack", "tok": tok, "img": op["img"], "retry": retry}
+                        if retry:
+                            cnt("probe:save-retried-after-fault")
                         if not op["path"].endswith(".npz"):
                             cnt("probe:npz-suffix-appended")
                     else:
@@ -409,6 +412,8 @@ def run_segment(case, seg_steps, model, root, magick):
                                                         "image": case["images"][m["img"]]}})
                             else:
                                 cnt("probe:roundtrip-verified")
+                                if m.get("retry"):
+                                    cnt("probe:retry-after-fault-verified")  # C18.L: once faults stop, a retried save holds
                                 if op.get("_after_restart"):
                                     cnt("probe:reload-after-restart-verified")
                     elif m["state"] == "indet" and rexc is None:
@@ -418,6 +423,18 @@ def run_segment(case, seg_steps, model, root, magick):
                         if reload_token(got, sorted(set(keys))) != m["tok"]:
                             viol.append({"oracle": "C18.R", "culprit": "faulted-read-returned-wrong-data", "step": idx,
                                          "detail": {"path": key}})
+                elif k == "npy":
+                    spec = case["images"][op["img"]]
+                    img = gen_image(spec)
+                    np.save(path, img.img)  # the caller stores the bare array; the metadata travel as keyword arguments
+                    md = {kk: v for kk, v in img.metadata().items() if kk != "color_space"}
+                    with _quiet():
+                        got = darsia.imread(path, **md)
+                    if reload_token(got, sorted(md)) != {kk: v for kk, v in image_token(img).items() if not kk.startswith("meta.color_space")}:
+                        viol.append({"oracle": "C18.R", "culprit": "npy-array-with-metadata-differs", "step": idx,
+                                     "detail": {"image": spec}})
+                    else:
+                        cnt("probe:npy-verified")
                 elif k == "bytes":
                     arr = gen_bytes_array(op)
                     enc = arr[..., ::-1] if arr.ndim == 3 and arr.shape[-1] == 3 else arr
@@ -673,12 +690,14 @@ class C18Engine(Engine):
         n = cfg.randint(3, 16 if tier == "thorough" else 12)
         saved, csaved = [], []
         for _ in range(n):
-            kind = wl.choices(["save", "read", "bytes", "optical", "corr_save", "corr_read"],
-                              [6, 7, 2, 2, 3 if corrs else 0, 4 if corrs else 0])[0]
+            kind = wl.choices(["save", "read", "bytes", "optical", "corr_save", "corr_read", "npy"],
+                              [6, 7, 2, 2, 3 if corrs else 0, 4 if corrs else 0, 1])[0]
             if kind == "save":
                 p = wl.choice(paths)
                 prog.append({"op": "save", "img": wl.choice(sorted(images)), "path": p, "pathlib": wl.choice([None, None, True])})
                 saved.append(p)
+            elif kind == "npy":
+                prog.append({"op": "npy", "img": wl.choice(sorted(images)), "path": wl.choice(["arr0.npy", "sub/arr1.npy"])})
             elif kind == "read":
                 p = wl.choice(saved) if saved and wl.random() < 0.9 else wl.choice(paths)
                 prog.append({"op": "read", "path": p, "via": wl.choice(["imread", "imread", "npz"])})
